@@ -98,6 +98,11 @@ def handleSt (st : WSt) (cmd : String) (args : List Sexp) : Option (WSt × Sexp)
          | _ => s1.mint.w.ln.calls)
       else []
     let trace := if ranMint inf then s1.mint.w.trace else []
+    -- a state check that re-polls two or more melt quotes does so in Go's map iteration order: compare as a multiset
+    let trace := match inf with
+      | .executed _ (.checkState ..) _ =>
+        if (trace.filter (· == "db.GetMeltQuote")).length ≥ 2 then trace.mergeSort (fun x y => decide (x ≤ y)) else trace
+      | _ => trace
     some ({ s := s1 }, l [Sexp.ofNat resp.status, .str resp.body, l (trace.map a), l (calls.map callSx),
                           Sexp.ofNat s1.cache.length, a (infoAtom inf)])
   | "wire.advance", [dt] => do some ({ s := advance st.s (← int? dt) }, l [a "ok"])
